@@ -245,7 +245,8 @@ def run(tier):
     # header block as the history of requests that carry no field of their own, in every syntax
     probes = [find_req(d, tl) for d, tl in BARE_PROBES]
     http_probes = [pi for pi, (d, _) in zip(probes, BARE_PROBES) if d.startswith((b"GET", b"HEAD"))]
-    for hi in header_idx:
+    per_block = header_idx if tier != "quick" else header_idx[::4]      # quick: one request of every header block
+    for hi in per_block:
         picks = http_probes if tier != "quick" else rng.sample(http_probes, 3)
         for pi in picks + [rng.choice(probes)]:
             corpus.append(([hi], pi))
@@ -253,7 +254,7 @@ def run(tier):
         corpus.append(([rng.choice(header_idx) for _ in range(rng.randrange(2, 6))], pi))
     for hi in rng.sample(header_idx, 12):               # and the other way round
         corpus.append(([rng.choice(probes)], hi))
-    nhist = max(nhist, len(corpus) + (120 if tier == "quick" else 800))
+    nhist = len(corpus) + (80 if tier == "quick" else 800)
     pool = benign + header_idx + probes
     for n_h in range(nhist):
         k = rng.randrange(1, 7)
@@ -298,7 +299,7 @@ def run(tier):
         tagbase = None
         why = None
         bad_logs = [l for l in o["log"] if "EXCEPTION" in l and "EXCEPTION FileNotFound" not in l]
-        if o["exc"] and o["exc"].startswith("RequestTimeLimit"):
+        if o["exc"] and "RequestTimeLimit" in o["exc"]:
             why, tagbase = "no complete reply within the time limit: " + o["exc"], "slow"
             stats["slow"] += 1
         elif o["exc"]:
@@ -473,13 +474,12 @@ def run(tier):
         {"path": "dir1/page.html.gz", "data": gen.lat(gzip.compress(b"<html><head><title>Zipped</title></head><body>z</body></html>\n", mtime=0))},
         {"path": "blob.bin.gz", "data": gen.lat(gzip.compress(bytes(range(256)) * 300, mtime=0))},
         {"path": "empty.txt.gz", "data": gen.lat(gzip.compress(b"", mtime=0))},
-        {"path": "broken.txt.gz", "data": "this is not gzip data\n"},
         {"path": "hello.sh", "data": "#!/bin/sh\necho hello from a script\necho \"$QUERY_STRING\"\n", "mode": 0o755},
     ]
     for e in ltree:
         e.setdefault("mtime", 1_700_000_000)
     lreqs = []
-    lsel = ["/notes.txt.gz", "/dir1/page.html.gz", "/blob.bin.gz", "/empty.txt.gz", "/broken.txt.gz", "/hello.sh", "/a.txt", "/b.html", "/dir1",
+    lsel = ["/notes.txt.gz", "/dir1/page.html.gz", "/blob.bin.gz", "/empty.txt.gz", "/hello.sh", "/a.txt", "/b.html", "/dir1",
             "/", "/mail.mbox", "/mail.mbox|/MBOX-MESSAGE/1", "/md", "/maps", "/umn", "/empty.txt", "/emptydir", "/nonexistent", "/img.gif",
             "/nope|/MBOX-MESSAGE/1", "/a.txt/x", "/dir1/../a.txt"]
     for proto in gen.PROTOCOLS:
